@@ -88,18 +88,20 @@ example : replaceQB cx.vars (lit "lst[i]") = some (lit "lst.1") := by decide
 
 /-- **C03, indexed range-loop source.** Inside a counter loop whose counter `i` holds `n`, `for … in pre[i]post`
     ranges over the value at `pre.<n>post` (repair of `Ctx.rloop`, which looked the literal path `pre[i]post` up,
-    found nothing and ran no iteration). -/
+    found nothing and ran no iteration); like every range loop it starts with `ctx.Err` cleared. -/
 theorem rloop_indexed_by_counter (run : St → Res) (re : Option (St → Res)) (ls : RLoopSpec) (s : St)
     (pre post i : Bytes) (n : Int) (hq : s.c.chQB = true) (hsrc : ls.src = pre ++ 91 :: (i ++ 93 :: post))
     (h1 : ∀ d ∈ pre, (d == 91) = false) (h2 : ∀ d ∈ pre, (d == 93) = false) (h3 : ∀ d ∈ i, (d == 93) = false)
     (hi : splitDots i = [i]) (hv : getVar s.c.vars i = some (.ins (.int n) .static)) :
-    rloopQB run re ls s = rloopWith run re { ls with src := pre ++ [46] ++ decInt n ++ post } s := by
+    rloopQB run re ls s = rloopWith run re { ls with src := pre ++ [46] ++ decInt n ++ post }
+      { s with c := { s.c with err := none } } := by
   unfold rloopQB cmpPath
   simp only [hq, if_true, hsrc, replaceQB_counter s.c.vars pre post i n h1 h2 h3 hi hv]
 
 /-- Outside counter loops (no substitution pending) the source is taken as written. -/
 theorem rloop_outside_counter_loops (run : St → Res) (re : Option (St → Res)) (ls : RLoopSpec) (s : St)
-    (hq : s.c.chQB = false) : rloopQB run re ls s = rloopWith run re ls s := by
+    (hq : s.c.chQB = false) :
+    rloopQB run re ls s = rloopWith run re ls { s with c := { s.c with err := none } } := by
   unfold rloopQB cmpPath
   simp [hq]
 
